@@ -126,6 +126,11 @@ def run(ck: Checker):
                     if method_of(c)[1] == 'append' and dotted(method_of(c)[0]) == 'self.streamlets':
                         arg = c.args[0] if c.args else None
                         inner = arg
+                        if isinstance(arg, ast.Name):
+                            # the streamlet was bound to a local first
+                            defs = [k for k in walk_shallow_func(f.node) if isinstance(k, ast.Assign) and len(k.targets) == 1 and is_name(k.targets[0], arg.id)]
+                            if len(defs) == 1:
+                                inner = defs[0].value
                         if not (isinstance(inner, ast.Call) and inner.args and norm_text(inner.args[0]) == 'self.streamlets[-1]'):
                             probs.append(f'the appended streamlet `{norm_text(arg)[:50]}` is not built on `self.streamlets[-1]`: the operator would not see the previous operators\' output')
         ck.ob('C03-3', f, (f.node.lineno, f'{f.cls.name}.{f.name}'), not probs, '; '.join(sorted(set(probs))) if probs else ('delegates to another operator method' if delegating else 'appends exactly one streamlet wrapping the previous one and returns self'))
